@@ -739,6 +739,7 @@ theorem step_all2 (hs : SlashCodeOk) (hg : GuardCodeOk) (s : State) (op : Op) (h
   | conf k n e b sg => exact confirm_owed s k n e b sg hi.owed
   | observe n => simp only [step, observe]; repeat' split
                  all_goals first | exact hi.owed | exact owed_mono s _ hi.owed rfl rfl rfl (fun _ => Nat.le_refl _)
+  | event bs bcs cs obs => exact owed_mono s _ hi.owed rfl rfl rfl (fun _ => Nat.le_refl _)
   | block dt => exact block_owed hs s dt hi.owed
   | valslash v num den => simp [noValSlash] at hop
 
